@@ -66,7 +66,8 @@ def _ctx_override(c: Ctx, K: dict[Func, str]):
 
 
 def _restore_loops(f: Func, st: str) -> list[ast.For]:
-    """`for i, item in enumerate(oldX): state.T[i + start] = ...` loops that write line tables from saved lists."""
+    """Loops that write several line tables back from saved cells (`for i, item in enumerate(oldX): state.T[i + start] = ...`,
+    `for line, (a, b, c, d) in enumerate(zip(...), start): state.T[line] = a ...`)."""
     out = []
     for n in own_nodes(f.node):
         if isinstance(n, ast.For):
@@ -326,140 +327,278 @@ def _dominated_by_own_store(cfg: CFG, read: Node, key: str) -> bool:
 
 
 # ------------------------------------------------------------------------------------------------ LOCK
+class SaveModel:
+    """The save / restore structure of a rule that rewrites line-table cells for a range of lines (blockquote):
+    which local lists receive saved cells, of which tables, and where (save events)."""
+
+    def __init__(self, c: Ctx, f: Func, st: str) -> None:
+        self.c, self.f, self.st = c, f, st
+        self.lists: dict[str, list[list[str]]] = {}        # list name -> table layouts seen ([T] for a scalar list, [T1..Tn] for tuples)
+        self.events: list[tuple[ast.AST, str, list[str], str, Func]] = []   # (stmt, list, tables, line index text, function)
+        self.helper_groups: dict[Func, dict[str, list[str]]] = {}          # helper -> {list param -> tables} it appends exactly once
+        self._scan(f, {})
+
+    def _tables_of(self, g: Func, e: ast.AST, stn: str) -> tuple[list[str], str] | None:
+        """If e reads table cells of one line - state.T[line], a tuple of such, or a helper returning such a tuple -
+        return ([tables], line index text)."""
+        if isinstance(e, ast.Subscript) and isinstance(e.value, ast.Attribute) and U(e.value.value) == stn and e.value.attr in TABLES:
+            return [e.value.attr], U(e.slice)
+        if isinstance(e, ast.Tuple) and e.elts:
+            parts = [self._tables_of(g, x, stn) for x in e.elts]
+            if all(p is not None for p in parts) and len({p[1] for p in parts}) == 1:      # type: ignore[index]
+                return [p[0][0] for p in parts], parts[0][1]                                 # type: ignore[index]
+            return None
+        if isinstance(e, ast.Call):
+            cs = self.c.cg.site_of.get(e)
+            if cs is not None and len(cs.callees) == 1 and cs.kind in ("direct", "method"):
+                h = cs.callees[0]
+                rets = [n for n in own_nodes(h.node) if isinstance(n, ast.Return) and n.value is not None]
+                hst = next((a.arg for a in h.node.args.args if self.c.tf.scope(h).env.get(a.arg) == "StateBlock"), None)
+                if len(rets) == 1 and hst:
+                    inner = self._tables_of(h, rets[0].value, hst)
+                    if inner is not None:
+                        # translate the helper's line parameter to the actual
+                        params = [a.arg for a in h.node.args.args]
+                        if inner[1] in params:
+                            a = self.c.eff.arg_for_param(cs, h, inner[1])
+                            return inner[0], U(a) if a is not None else inner[1]
+                        return inner
+        return None
+
+    def _scan(self, g: Func, alias: dict[str, str]) -> None:
+        """Collect save events of g; `alias` maps g's parameter names to the caller's list names."""
+        stn = next((a.arg for a in g.node.args.args if self.c.tf.scope(g).env.get(a.arg) == "StateBlock"), self.st)
+        for n in own_nodes(g.node):
+            lst = None
+            val = None
+            if isinstance(n, ast.Assign) and len(n.targets) == 1 and isinstance(n.targets[0], ast.Name) and isinstance(n.value, ast.List):
+                if len(n.value.elts) == 1:
+                    lst, val = n.targets[0].id, n.value.elts[0]
+                elif len(n.value.elts) == 0:
+                    continue
+            elif isinstance(n, ast.Expr) and isinstance(n.value, ast.Call) and isinstance(n.value.func, ast.Attribute) \
+                    and n.value.func.attr == "append" and isinstance(n.value.func.value, ast.Name) and n.value.args:
+                lst, val = n.value.func.value.id, n.value.args[0]
+            if lst is None or val is None:
+                continue
+            tv = self._tables_of(g, val, stn)
+            if tv is None:
+                continue
+            name = alias.get(lst, lst) if g is not self.f else lst
+            self.lists.setdefault(name, [])
+            if tv[0] not in self.lists[name]:
+                self.lists[name].append(tv[0])
+            self.events.append((n, name, tv[0], tv[1], g))
+        if g is self.f:
+            # helpers that receive local lists and append to them
+            for cs in self.c.cg.sites.get(g, []):
+                if len(cs.callees) != 1 or cs.kind != "direct":
+                    continue
+                h = cs.callees[0]
+                if h.module is not g.module or h in self.helper_groups:
+                    continue
+                params = [a.arg for a in h.node.args.args]
+                amap = {}
+                for pn in params:
+                    a = self.c.eff.arg_for_param(cs, h, pn)
+                    if isinstance(a, ast.Name) and self.c.tf.scope(g).is_local(a.id):
+                        amap[pn] = a.id
+                if not amap:
+                    continue
+                before = len(self.events)
+                self._scan(h, amap)
+                evs = self.events[before:]
+                if evs:
+                    self.helper_groups[h] = {e[1]: e[2] for e in evs}
+
+
 def rule_lock(c: Ctx) -> RuleResult:
-    r = RuleResult("LOCK", "blockquote's four save lists are created and appended in lockstep, exactly one group per scanned line, and "
-                           "the restore loop writes each table back from its own list")
+    r = RuleResult("LOCK", "blockquote saves the line-table cells of every line it rewrites (in lockstep, one group per scanned line) and "
+                           "its restore loop writes each table back from the component that saved it")
     f = c.p.func("rules_block/blockquote.py:blockquote")
     st = f.node.args.args[0].arg
     r.functions = 1
-    # discover the save lists:  oldX = [state.T[startLine]]
-    lists: dict[str, str] = {}
-    for n in own_nodes(f.node):
-        if isinstance(n, ast.Assign) and len(n.targets) == 1 and isinstance(n.targets[0], ast.Name) and isinstance(n.value, ast.List) \
-                and len(n.value.elts) == 1 and isinstance(n.value.elts[0], ast.Subscript):
-            b = n.value.elts[0].value
-            if isinstance(b, ast.Attribute) and U(b.value) == st and b.attr in TABLES:
-                lists[n.targets[0].id] = b.attr
-    if len(lists) < 2:
-        raise AnchorError("blockquote: the line-table save lists were not found in the recognised form (oldX = [state.T[startLine]])")
-    want = sorted(lists)
-
-    def touched(s: ast.stmt) -> tuple[str, str] | None:
-        """(list name, table it saves from) if s creates / appends to a save list."""
-        if isinstance(s, ast.Assign) and len(s.targets) == 1 and isinstance(s.targets[0], ast.Name) and s.targets[0].id in lists \
-                and isinstance(s.value, ast.List) and len(s.value.elts) == 1 and isinstance(s.value.elts[0], ast.Subscript):
-            b = s.value.elts[0].value
-            return (s.targets[0].id, b.attr if isinstance(b, ast.Attribute) else "?")
-        if isinstance(s, ast.Expr) and isinstance(s.value, ast.Call) and isinstance(s.value.func, ast.Attribute) and s.value.func.attr == "append" \
-                and isinstance(s.value.func.value, ast.Name) and s.value.func.value.id in lists and s.value.args \
-                and isinstance(s.value.args[0], ast.Subscript):
-            b = s.value.args[0].value
-            return (s.value.func.value.id, b.attr if isinstance(b, ast.Attribute) else "?")
-        return None
-
+    m = SaveModel(c, f, st)
+    if not m.lists:
+        raise AnchorError("blockquote: no local list receives saved line-table cells (state.T[line]) - the save / restore structure was not recognised")
+    want_tables = sorted({t for lays in m.lists.values() for lay in lays for t in lay})
+    parallel = len(m.lists) > 1
+    # ---- lockstep of save groups, per statement block (in blockquote and in the helpers that append)
     ngroups = 0
-    for blk in _blocks(f.node):
-        ts = [t for t in (touched(s) for s in blk) if t]
-        if not ts:
-            continue
-        first = next(s for s in blk if touched(s))
-        names = sorted(t[0] for t in ts)
-        idx = {U(_idx(s)) for s in blk if touched(s)}
-        key = f"group|{len(idx) and sorted(idx)[0]}|{ngroups}"
-        wrong = [t for t in ts if lists[t[0]] != t[1]]
-        if names != want:
-            miss = sorted(set(want) - set(names))
-            dup = sorted({n for n in names if names.count(n) > 1})
-            r.add(key, c.where(f, first), f.short, "; ".join(U(s) for s in blk if touched(s))[:140], "violation",
-                  f"save lists out of lockstep in this block: missing {miss} duplicated {dup}: index i of one list no longer denotes "
-                  f"line startLine + i of the others (wrong line restored, or IndexError)")
-        elif wrong:
-            r.add(key, c.where(f, first), f.short, "; ".join(U(s) for s in blk if touched(s))[:140], "violation",
-                  f"{wrong[0][0]} saves from table {wrong[0][1]} but was created from {lists[wrong[0][0]]}")
-        elif len(idx) != 1:
-            r.add(key, c.where(f, first), f.short, "; ".join(U(s) for s in blk if touched(s))[:140], "violation",
-                  f"the group saves different lines {sorted(idx)}")
-        else:
-            ngroups += 1
-            r.add(key, c.where(f, first), f.short, "; ".join(U(s) for s in blk if touched(s))[:140], "discharged",
-                  f"all {len(want)} save lists take line {sorted(idx)[0]} together")
-    # exactly one group per loop iteration that reaches the back edge
-    one = sorted(lists)[0]
+    funcs = [f] + list(m.helper_groups)
+    for g in funcs:
+        for blk in _blocks(g.node):
+            evs = [e for e in m.events if e[4] is g and any(e[0] is s_ for s_ in blk)]
+            if not evs:
+                continue
+            first = evs[0][0]
+            tabs = sorted(t for e in evs for t in e[2])
+            idx = {e[3] for e in evs}
+            names = sorted(e[1] for e in evs)
+            key = f"group|{g.short}|{ngroups}"
+            txt = "; ".join(U(e[0]) for e in evs)[:140]
+            if tabs != want_tables:
+                miss = sorted(set(want_tables) - set(tabs))
+                dup = sorted({t for t in tabs if tabs.count(t) > 1})
+                r.add(key, c.where(g, first), g.short, txt, "violation",
+                      f"the save group in this block does not cover each rewritten table exactly once: missing {miss} duplicated {dup} - index i "
+                      f"of one save list no longer denotes line startLine + i of the others (wrong line restored, or IndexError)")
+            elif len(idx) != 1:
+                r.add(key, c.where(g, first), g.short, txt, "violation", f"the group saves different lines {sorted(idx)}")
+            elif parallel and len(set(names)) != len(names):
+                r.add(key, c.where(g, first), g.short, txt, "violation", f"a save list is appended twice in one group: {names}")
+            else:
+                ngroups += 1
+                r.add(key, c.where(g, first), g.short, txt, "discharged", f"tables {want_tables} of line {sorted(idx)[0]} are saved together")
+    # a list must always save the same table (layout)
+    for name, lays in sorted(m.lists.items()):
+        if len(lays) != 1:
+            r.add(f"layout|{name}", c.where(f, f.node), f.short, name, "violation", f"save list `{name}` receives cells of different tables: {lays}")
+    # ---- exactly one group per scanned line: along every path through the scan loop that continues with the next line
+    one = sorted(m.lists)[0]
     cfg = c.cfg(f)
-    loops = [n for n in own_nodes(f.node) if isinstance(n, ast.While) and any(
-        isinstance(x, ast.Call) and isinstance(x.func, ast.Attribute) and x.func.attr == "append" and U(x.func.value) == one for x in ast.walk(n))]
+
+    def group_count(n: Node) -> int:
+        """Number of save groups executed at this CFG node (a direct event on the first list, or a call of a helper that
+        appends to it)."""
+        if n.kind != "stmt" or n.ast is None:
+            return 0
+        k = 0
+        for e in m.events:
+            if e[4] is f and e[0] is n.ast and e[1] == one:
+                k += 1
+        for call in ast.walk(n.ast):
+            if isinstance(call, ast.Call):
+                cs = c.cg.site_of.get(call)
+                if cs is not None and len(cs.callees) == 1 and cs.callees[0] in m.helper_groups and one in m.helper_groups[cs.callees[0]]:
+                    k += 1
+        return k
+    loops = [n for n in own_nodes(f.node) if isinstance(n, (ast.While, ast.For)) and any(group_count(x) for x in cfg.nodes if x.ast is not None and any(y is x.ast for y in ast.walk(n)))]
+    # outermost such loop only
+    loops = [l for l in loops if not any(l is not o and any(y is l for y in ast.walk(o)) for o in loops)]
     for loop in loops:
-        head = next((n for n in cfg.nodes if n.kind == "join" and n.ast is loop), None)
+        head = next((n for n in cfg.nodes if n.kind in ("join", "for") and n.ast is loop), None)
         if head is None:
             continue
-        inside = {id(x) for b in loop.body for x in ast.walk(b)} | {id(x) for x in ast.walk(loop.test)}
-
-        def step(n: Node, s, label: str, succ: Node):
-            if label == "exc":
-                return []
-            if n is not head and succ is head:
-                return [("back", s[1])] if isinstance(s, tuple) else []
-            if succ.ast is not None and id(succ.ast) not in inside and succ is not head:
-                return []
-            cnt = s[1]
-            if n.kind == "stmt" and isinstance(n.ast, ast.Expr) and isinstance(n.ast.value, ast.Call) \
-                    and isinstance(n.ast.value.func, ast.Attribute) and n.ast.value.func.attr == "append" and U(n.ast.value.func.value) == one:
-                cnt = min(cnt + 1, 3)
-            return [("in", cnt)]
-        # propagate from the head for a single iteration
-        IN: dict[int, set] = {n.id: set() for n in cfg.nodes}
-        work = [(head, ("in", 0))]
+        inside = {id(x) for b in loop.body for x in ast.walk(b)} | ({id(x) for x in ast.walk(loop.test)} if isinstance(loop, ast.While) else set())
         backs: set[int] = set()
         seen: set[tuple[int, int]] = set()
+        work = [(m_, 0) for (m_, l) in head.succ if l != "exc" and (l in ("iter", "") or True)]
         while work:
-            n, s = work.pop()
-            if (n.id, s[1]) in seen:
+            n, cnt = work.pop()
+            if n is head:
+                backs.add(cnt)
                 continue
-            seen.add((n.id, s[1]))
-            for (m, label) in n.succ:
-                for out in step(n, s, label, m):
-                    if out[0] == "back":
-                        backs.add(out[1])
-                    else:
-                        work.append((m, out))
+            if n.ast is not None and id(n.ast) not in inside:
+                continue
+            if (n.id, cnt) in seen:
+                continue
+            seen.add((n.id, cnt))
+            cnt2 = min(cnt + group_count(n), 3)
+            for (x, l) in n.succ:
+                if l != "exc":
+                    work.append((x, cnt2))
         ok = backs == {1}
-        r.add("one-group-per-line", c.where(f, loop), f.short, f"while {U(loop.test)}: ...", "discharged" if ok else "violation",
-              "every path through the scan loop that continues with the next line appends exactly one group" if ok else
-              f"a path through the scan loop appends {sorted(backs)} groups before moving to the next line: list index i no longer "
-              f"corresponds to line startLine + i")
-    # restore loop
+        r.add("one-group-per-line", c.where(f, loop), f.short, U(loop).split("\n")[0][:70], "discharged" if ok else "violation",
+              "every path through the scan loop that continues with the next line saves exactly one group" if ok else
+              f"a path through the scan loop saves {sorted(backs)} groups before moving to the next line: entry i of the save structure no "
+              f"longer corresponds to line startLine + i")
+    # helpers must append each list exactly once on every path
+    for h, grp in m.helper_groups.items():
+        hcfg = c.cfg(h)
+        counts: set[int] = set()
+        seen2: set[tuple[int, int]] = set()
+        work2 = [(hcfg.entry, 0)]
+        target_list = next(iter(grp))
+        inv = {v: k for k, v in {}.items()}
+        while work2:
+            n, cnt = work2.pop()
+            if n is hcfg.exit:
+                counts.add(cnt)
+                continue
+            if (n.id, cnt) in seen2:
+                continue
+            seen2.add((n.id, cnt))
+            k = 0
+            if n.kind == "stmt":
+                for e in m.events:
+                    if e[4] is h and e[0] is n.ast and e[1] == sorted(m.lists)[0]:
+                        k += 1
+            for (x, l) in n.succ:
+                if l != "exc":
+                    work2.append((x, min(cnt + k, 3)))
+        ok = counts == {1}
+        r.add(f"helper-group|{h.short}", c.where(h, h.node), h.short, f"def {h.name}", "discharged" if ok else "violation",
+              "appends exactly one save group on every path" if ok else f"appends {sorted(counts)} save groups depending on the path")
+    # ---- restore loop
     rl = _restore_loops(f, st)
     if not rl:
-        r.add("restore-loop", c.where(f, f.node), f.short, "restore loop", "violation", "no loop restores the line tables from the save lists")
+        r.add("restore-loop", c.where(f, f.node), f.short, "restore loop", "violation", "no loop restores the line tables from the saved cells")
     for loop in rl:
-        it = loop.iter
-        item_list = None
-        tgt_names = [x.id for x in ast.walk(loop.target) if isinstance(x, ast.Name)]
-        if isinstance(it, ast.Call) and U(it.func) == "enumerate" and it.args and isinstance(it.args[0], ast.Name):
-            item_list = it.args[0].id
-        restored: dict[str, str] = {}
-        idxs = set()
-        for s in loop.body:
-            if isinstance(s, ast.Assign) and len(s.targets) == 1 and isinstance(s.targets[0], ast.Subscript):
-                b = s.targets[0].value
-                if isinstance(b, ast.Attribute) and U(b.value) == st and b.attr in TABLES:
-                    idxs.add(U(s.targets[0].slice))
-                    v = s.value
-                    src = None
-                    if isinstance(v, ast.Subscript) and isinstance(v.value, ast.Name):
-                        src = v.value.id
-                    elif isinstance(v, ast.Name) and item_list and len(tgt_names) == 2 and v.id == tgt_names[1]:
-                        src = item_list
-                    restored[b.attr] = src or U(v)
-        bad = [(t, s_) for t, s_ in restored.items() if lists.get(s_) != t]
-        missing = sorted(set(lists.values()) - set(restored))
+        restored, idxs, bad = _restore_sources(m, loop, st)
+        missing = sorted(set(want_tables) - set(restored))
         ok = not bad and not missing and len(idxs) == 1
-        r.add("restore-loop", c.where(f, loop), f.short, f"for {U(loop.target)} in {U(loop.iter)}: ...", "discharged" if ok else "violation",
-              f"each of {sorted(restored)} is written back from its own save list at one common index" if ok else
-              (f"table {bad[0][0]} is restored from {bad[0][1]}, which saves {lists.get(bad[0][1], 'nothing')}" if bad else
-               f"tables {missing} are saved but not restored" if missing else f"tables restored at different indices {sorted(idxs)}"))
-    r.floor = 6
+        r.add("restore-loop", c.where(f, loop), f.short, f"for {U(loop.target)} in {U(loop.iter)}: ..."[:90], "discharged" if ok else "violation",
+              f"each of {sorted(restored)} is written back from the component that saved it, at one common index" if ok else
+              (bad[0] if bad else f"tables {missing} are saved but not restored" if missing else f"tables restored at different indices {sorted(idxs)}"))
+    r.floor = 5
     return r
+
+
+def _restore_sources(m: SaveModel, loop: ast.For, st: str) -> tuple[dict[str, str], set[str], list[str]]:
+    """For the restore loop: table -> where its value comes from; the set of index texts; mismatches."""
+    # bind the loop target components to (list, position)
+    comp: dict[str, tuple[str, int | None]] = {}
+
+    def bind(target: ast.AST, src: ast.AST) -> None:
+        """target is bound to elements of src."""
+        if isinstance(src, ast.Call) and U(src.func) == "enumerate" and src.args:
+            if isinstance(target, ast.Tuple) and len(target.elts) == 2:
+                bind(target.elts[1], src.args[0])
+            return
+        if isinstance(src, ast.Call) and U(src.func) == "zip":
+            if isinstance(target, ast.Tuple) and len(target.elts) == len(src.args):
+                for t_, a_ in zip(target.elts, src.args):
+                    bind(t_, a_)
+            return
+        if isinstance(src, ast.Name) and src.id in m.lists:
+            lay = m.lists[src.id][0]
+            if isinstance(target, ast.Name):
+                comp[target.id] = (src.id, None if len(lay) == 1 else -1)
+            elif isinstance(target, ast.Tuple) and len(target.elts) == len(lay):
+                for k, t_ in enumerate(target.elts):
+                    if isinstance(t_, ast.Name):
+                        comp[t_.id] = (src.id, k)
+    bind(loop.target, loop.iter)
+    restored: dict[str, str] = {}
+    idxs: set[str] = set()
+    bad: list[str] = []
+    for s_ in loop.body:
+        if isinstance(s_, ast.Assign) and len(s_.targets) == 1 and isinstance(s_.targets[0], ast.Subscript):
+            b = s_.targets[0].value
+            if isinstance(b, ast.Attribute) and U(b.value) == st and b.attr in TABLES:
+                idxs.add(U(s_.targets[0].slice))
+                v = s_.value
+                src_tab = None
+                if isinstance(v, ast.Subscript) and isinstance(v.value, ast.Name) and v.value.id in m.lists:
+                    lay = m.lists[v.value.id][0]
+                    src_tab = lay[0] if len(lay) == 1 else None
+                    restored[b.attr] = U(v)
+                elif isinstance(v, ast.Name) and v.id in comp:
+                    lst, k = comp[v.id]
+                    lay = m.lists[lst][0]
+                    src_tab = lay[0] if k is None else (lay[k] if k >= 0 else None)
+                    restored[b.attr] = f"{lst}[{'' if k is None else k}]"
+                elif isinstance(v, ast.Subscript) and isinstance(v.value, ast.Name) and v.value.id in comp and isinstance(v.slice, ast.Constant):
+                    lst, _ = comp[v.value.id]
+                    lay = m.lists[lst][0]
+                    src_tab = lay[v.slice.value] if isinstance(v.slice.value, int) and v.slice.value < len(lay) else None
+                    restored[b.attr] = U(v)
+                else:
+                    restored[b.attr] = U(v)
+                if src_tab != b.attr:
+                    bad.append(f"table {b.attr} is restored from `{U(v)}`, which holds saved {src_tab or 'something else'}")
+    return restored, idxs, bad
 
 
 def _idx(s: ast.stmt) -> ast.AST:
